@@ -1644,6 +1644,9 @@ func parseFieldNumValue(s string) (float64, int32, error) {
 			return 0, Field_Type_Unknown, fmt.Errorf("invalid field value")
 		}
 		n := fastfloat.ParseBestEffort(ss)
+		if math.IsNaN(n) || math.IsInf(n, 0) {
+			return 0, Field_Type_Unknown, fmt.Errorf("invalid number")
+		}
 		return n, Field_Type_Float, nil
 	}
 	if s == "t" || s == "T" || s == "true" || s == "True" || s == "TRUE" {
